@@ -1023,8 +1023,15 @@ public:
       }
       if (t.pulse && !o.violated) {
         // Reset pulse at an arbitrary edge.
+        if (t.readval & 2) {
+          // Under reset the processor sits at address 0: put this step's instruction byte there, so that
+          // the outputs under reset are compared for every kind of byte (an SVC above all).
+          uint32_t w0 = (a.mem()[0] & ~0xFFu) | ((t.mval >> ((t.pc & 3) * 8)) & 0xFF);
+          a.mem()[0] = w0; b.mem()[0] = w0; c.mem()[0] = w0;
+        }
         a.rst(true); b.rst(true); c.rst(true);
         compareReplicas(o, clk, "reset pulse asserted, before any clock edge");
+        if (!o.violated) compareOutputs(o, clk);          // the outputs are part of "the same outputs for every input and state", reset included
         if ((t.readval & 1) == 0) { a.edge(); b.edge(); c.edge(); }      // otherwise the pulse falls between two edges
         a.rst(false); b.rst(false); c.rst(false);
         a.settle(); b.settle(); c.settle();
